@@ -125,6 +125,15 @@ def setup():
         cls._get_property = mk(orig)
 
 
+def warmup():
+    """compile the numba kernels the vle op needs (cold cache for every VERIF_REPO copy) before the clock starts"""
+    try:
+        ms = tmo.MultiStream(None, l=[('Water', 5.), ('Ethanol', 5.)], phases=('g', 'l'), thermo=THERMOS[0])
+        ms.vle(T=355.0, P=101325.0)
+    except Exception:
+        pass
+
+
 def budget(tier):
     return {'quick': dict(seconds=70, cases=1200, shrink_s=20, search_s=10),
             'thorough': dict(seconds=480, cases=60000, shrink_s=40, search_s=30)}[tier]
@@ -258,6 +267,9 @@ def run_ops(ops):
                 w.add(w.objs[int(t[1])].copy(), 'copy'); emit(f'new {pkg_id(w.objs[-1].thermo)}', f'ok {len(w.objs) - 1}')
             elif op == 'copythermo':
                 w.add(w.objs[int(t[1])].copy(thermo=THERMOS[int(t[2])]), 'copy'); emit(f'new {pkg_id(w.objs[-1].thermo)}', f'ok {len(w.objs) - 1}')
+            elif op == 'fromdata':
+                src = w.objs[int(t[1])]
+                w.add(type(src).from_data(src.get_data(), thermo=src.thermo), 'copy'); emit(f'new {pkg_id(w.objs[-1].thermo)}', f'ok {len(w.objs) - 1}')
             elif op == 'flowproxy':
                 w.add(w.objs[int(t[1])].flow_proxy(), 'flowproxy'); emit(f'new {pkg_id(w.objs[-1].thermo)}', f'ok {len(w.objs) - 1}')
             elif op == 'proxy':
@@ -499,7 +511,7 @@ def run_ops(ops):
 def run_impl(case: Case) -> ImplResult:
     model_in, outs, failures, hits, changes = run_ops(case.ops)
     # tags count operations that really RAN in this case (a generated op may be skipped as inapplicable or cut off)
-    created = {l.split(' ')[0] for l in case.ops if l.split(' ')[0] in ('new', 'copy', 'copythermo', 'flowproxy', 'proxy', 'view')}
+    created = {l.split(' ')[0] for l in case.ops if l.split(' ')[0] in ('new', 'copy', 'copythermo', 'fromdata', 'flowproxy', 'proxy', 'view')}
     tags = sorted(set(_EXEC) | created) + sorted({'ans:' + o.split(' ')[0] for o in outs}) + list(_TRUNC)
     tags.append('history:complete' if not _TRUNC else 'history:cut')
     if _ILL: tags.append('skip:package-and-indexer-out-of-step')
@@ -630,7 +642,9 @@ def gen_case(rng, length):
         elif r < 0.86 and len(kinds) < 5:
             ops.append(f'flowproxy {o}'); kinds.append(kinds[o])
         elif r < 0.88 and len(kinds) < 5:
-            if rng.random() < 0.5: ops.append(f'copy {o}')
+            k = rng.random()
+            if k < 0.4: ops.append(f'copy {o}')
+            elif k < 0.55 and kinds[o] != 'view': ops.append(f'fromdata {o}')
             else: ops.append(f'copythermo {o} {rng.choice([3, 3, 0, 2])}')
             kinds.append(kinds[o])
             if last_read and last_read[0] == o and rng.random() < 0.7:
@@ -674,7 +688,7 @@ def search(case, rng, budget_s):
     real code near it: every continuation of the history by one or two further reads on every object."""
     import time
     t0 = time.time()
-    nobj = sum(1 for l in case.ops if l.split(' ')[0] in ('new', 'copy', 'copythermo', 'flowproxy', 'proxy', 'view'))
+    nobj = sum(1 for l in case.ops if l.split(' ')[0] in ('new', 'copy', 'copythermo', 'fromdata', 'flowproxy', 'proxy', 'view'))
     attrs = ATTRS_SINGLE
     prefixes = [case.ops[:n] for n in range(len(case.ops), max(0, len(case.ops) - 4), -1)]
     for pre in prefixes:
